@@ -569,6 +569,67 @@ fn gen_case(g: &mut Xo, for_dist: bool) -> (Api, Shape, Vec<u32>) {
     (api, shape, weights)
 }
 
+/// ENUMERATED single selections: every weight vector over {0, 1, 2, 5} of 1..=4 members x {tree (left-nested,
+/// right-nested), chain, dynamic list} x {nobody fails, members from index k on fail} x {list used after j members}
+/// x 4 streams. Zero patterns such as "a zero after a positive weight" or "all equal" are all met.
+const ENUM_W: [u32; 4] = [0, 1, 2, 5];
+
+fn right_chain(n: usize) -> Shape {
+    let mut s = Shape::Leaf(n - 1);
+    for i in (0..n - 1).rev() {
+        s = Shape::Pair(Box::new(Shape::Leaf(i)), Box::new(s));
+    }
+    s
+}
+
+fn enum_cells() -> u64 {
+    // per n: 4^n weight vectors x 4 apis x (n + 1) failure patterns x n warm points x 4 streams
+    (1..=4u64).map(|n| 4u64.pow(n as u32) * 4 * (n + 1) * n * 4).sum()
+}
+
+fn enum_cell(mut idx: u64) -> Sc {
+    let mut n = 1u64;
+    loop {
+        let block = 4u64.pow(n as u32) * 4 * (n + 1) * n * 4;
+        if idx < block || n == 4 {
+            break;
+        }
+        idx -= block;
+        n += 1;
+    }
+    let stream = idx % 4;
+    idx /= 4;
+    let warm = idx % n;
+    idx /= n;
+    let fail = idx % (n + 1);
+    idx /= n + 1;
+    let api_k = idx % 4;
+    idx /= 4;
+    let n = n as usize;
+    let weights: Vec<u32> = (0..n).map(|i| ENUM_W[((idx >> (2 * i)) & 3) as usize]).collect();
+    let (api, shape) = match api_k {
+        0 => (Api::Tree, left_chain(n)),
+        1 => (Api::Tree, right_chain(n)),
+        2 if n >= 2 => (Api::Chain, left_chain(n)),
+        2 => (Api::Tree, left_chain(n)),
+        _ => (Api::Dyn, left_chain(n)),
+    };
+    let rng = match stream {
+        0 => RngSpec::seeded(1),
+        1 => RngSpec::seeded(0x9e37_79b9 ^ idx),
+        2 => RngSpec { q16: 16, ..RngSpec::seeded(3) },
+        _ => RngSpec { q16: 5, ..RngSpec::seeded(4 ^ idx) },
+    };
+    Sc::One {
+        api,
+        shape,
+        weights,
+        rng,
+        pop_len: if fail as usize == n { None } else { Some(fail as usize) },
+        warm_after: if api == Api::Dyn && warm >= 1 && n >= 2 { Some(warm as usize) } else { None },
+    }
+}
+
 struct C13;
 
 const EXPERIMENTS_QUICK: u64 = 60;
@@ -631,6 +692,9 @@ impl Check for C13 {
                 cells_total: exps * 6,
                 warm_after,
             };
+        }
+        if run < exps + enum_cells() {
+            return enum_cell(run - exps);
         }
         let (mut api, mut shape, mut weights) = gen_case(g, false);
         if run % 6 == 3 {
